@@ -250,6 +250,7 @@ class ImplWorld:
         self.prop_instance = False      # property statecharts are bound as ready-made interpreters (deprecated form)
         self.peek_config = False        # the harness's listener reads `interpreter.configuration` at every meta-event
         self.method_targets = False     # recording callables are bound as methods of otherwise unreferenced objects
+        self.pair_mode = False          # (C18) a snapshot that cannot be taken is an observation, not a crash
         self.real = 0
         self.deliveries = None          # when a list: global order in which the recording callables were called
         self.log = Log()
@@ -735,13 +736,23 @@ class ImplWorld:
         # the harness's own listener closes over the harness: detach it around the copy
         own = self.meta_loggers[i]
         it.detach(own)
+        # (an interpreter bound to this one is copied along with it: its harness listener is set aside too)
+        others = [(j, ml) for j, ml in self.meta_loggers.items() if j != i] if self.pair_mode else []
+        for j, ml in others:
+            self.slots[j].detach(ml)
         try:
             if how.startswith('pickle'):
                 cp = pickle.loads(pickle.dumps(it))
             else:
                 cp = copy.deepcopy(it)
+        except Exception as e:      # noqa
+            if self.pair_mode:
+                return {'error': '%s: %s' % (type(e).__name__, str(e)[:160])}
+            raise
         finally:
             it.attach(own)
+            for j, ml in others:
+                self.slots[j].attach(ml)
         if how.endswith('-keep'):
             return None
         if how.endswith('-both'):
@@ -767,6 +778,7 @@ def run_case(case, charts, clock_mover=False):
     w.outer_first = bool(case.get('outer_first'))
     w.prop_instance = bool(case.get('prop_instance'))
     w.method_targets = bool(case.get('method_targets'))
+    w.pair_mode = bool(case.get('pair'))
     if 'peek_config' in case:
         w.peek_config = bool(case['peek_config'])
     else:
